@@ -205,8 +205,11 @@ impl SqPackIndex {
                         path: directory_crc,
                     }
                 } else {
-                    // TODO: is this ever hit?
-                    panic!("This is unexpected, why is the file sitting outside of a folder?");
+                    // a file outside of any folder: hash it with an empty directory name
+                    Hash::SplitPath {
+                        name: CRC.checksum(lowercase.as_bytes()),
+                        path: CRC.checksum(b""),
+                    }
                 }
             }
             IndexType::Index2 => Hash::FullPath(CRC.checksum(lowercase.as_bytes())),
